@@ -250,6 +250,7 @@ def c03(res, st, std_coq, lexer_correspondence):
     res.add_cases(len(cases), len(set(cases)), [gens.case_lines(cases[:1]).strip()[:200], gens.case_lines(cases[-1:]).strip()[:200]])
     # C03_type_parser_terminates is about Parse/TypeModel.v: tie it to ParseType (the extracted model answers, never FUEL, on every input)
     type_correspondence(res, rnd, q)
+    type_recover_correspondence(res, rnd, q)
     res.cov["rule"] = ("theorems: lexer/splitter totality for all byte strings (model), escape analysis over every path of the regenerated skeleton; "
                        "correspondence: lexer outcome class and error range in both modes on all strings of <= 4/5 symbols over the 24-symbol alphabet + "
                        "samples; implementation: every entry point (with a 3 s watchdog) on corpus mutations, token soups, lists, every malformed "
@@ -319,6 +320,8 @@ def c09(res, st, std_coq):
                   ("ParseDDLs", b"CREATE TABLE;\n" * n), ("ParseStatements", b"SELECT 1 +;\n" * n), ("ParseDMLs", b"DELETE FROM;\n" * n),
                   ("ParseExpr", b"f(" + b"CAST(1 AS x y), " * n + b"1)")]
     report_oracle(res, "C09", cases, "error contract violated")
+    # C09_type_parser_contract is about Parse/TypeRecover.v: tie it to ParseType
+    type_recover_correspondence(res, rnd, q)
     res.add_cases(len(cases), len(set(cases)), [gens.case_lines(cases[:1]).strip()[:200], gens.case_lines(cases[-1:]).strip()[:200]])
     res.cov["rule"] = ("theorems on the trace model + syntactic obligations on the regenerated summary + escape theorem; implementation: corpus, "
                        "mutations, soups, lists, generated sentences, sentences with one token deleted/inserted/replaced/truncated, random bytes, systematic "
@@ -426,6 +429,7 @@ def sampled(res, st, std_coq, extra_vo=()):
         respell_fragment(res, rnd, q)
     if have and pid == "C10":
         recovery_correspondence(res, cases)
+        type_recover_correspondence(res, rnd, q)
     if have and pid in ("C05", "C06", "C08"):
         # the theorems are about Parse/ExprModel.v: tie it to ParseExpr (full trees, every position) and evaluate the theorems'
         # hypothesis input_okb on every token list the real lexer produced
@@ -575,6 +579,42 @@ def type_correspondence(res, rnd, q):
                    "\n".join("%r\n go:    %s\n model: %s" % b for b in bad[:3]))
     res.extra["type_correspondence"] = dict(st, inputs=len(inputs), disagreements=len(bad))
     res.add_cases(len(inputs), st["ok"] + st["err"], [])
+
+
+def type_recover_correspondence(res, rnd, q):
+    """the TOTAL model of ParseType (Parse/TypeRecover.v: grammar + error recovery) on the real lexer's tokens vs ParseType, on accepted
+    and rejected inputs alike: the whole tree with its BadType nodes and their tokens, the position of EVERY recorded error, the number of
+    Bad nodes (the flag 'something separates this token from the previous one' of Bad-node tokens is not modelled and projected away)"""
+    import re
+    inputs = gens.type_cases(rnd, q)
+    inp = "\n".join(hexs(x) for x in inputs) + "\n"
+    toks = vlib.run_lines(vlib.HARNESS, ["expr-toks"], inp)
+    go = vlib.run_lines(vlib.HARNESS, ["type-go-all"], inp)
+    md = vlib.run_lines(vlib.DRIVER, ["type-recover"], "\n".join(toks) + "\n")
+    norm = lambda s_: re.sub(r" B[01]\)", ")", s_)
+    st = {"clean": 0, "recovered": 0, "lexerr": 0, "bad_nodes": 0, "errors": 0}
+    bad = []
+    for x, g_, m in zip(inputs, go, md):
+        gm = g_.split(" => ", 1)[1]
+        mm = m.split(" => ", 1)[1]
+        if mm == "LEXERR":
+            st["lexerr"] += 1
+            continue
+        if norm(gm) != mm:
+            bad.append((x, gm[:400], mm[:400]))
+            continue
+        nerr, _, nbad = mm.split(" ", 3)[:3]
+        st["clean" if nerr == "0" else "recovered"] += 1
+        st["bad_nodes"] += int(nbad)
+        st["errors"] += int(nerr)
+    for (x, g_, m) in bad[:3]:
+        res.violation("ParseType and the total model of the type parser (grammar + recovery) disagree (tree with Bad nodes, error positions)",
+                      {"kind": "type-recover", "entry": "ParseType", "input_hex": hexs(x), "go": g_, "model": m})
+    res.obligation("correspondence: ParseType == extracted total model (grammar + recovery) on %d inputs: %d clean, %d with recovery "
+                   "(%d errors, %d Bad nodes compared)" % (len(inputs), st["clean"], st["recovered"], st["errors"], st["bad_nodes"]),
+                   not bad and st["clean"] > 0 and st["recovered"] > 0, "\n".join("%r\n go:    %s\n model: %s" % b for b in bad[:3]))
+    res.extra["type_recover_correspondence"] = dict(st, inputs=len(inputs), disagreements=len(bad))
+    res.add_cases(len(inputs), st["clean"] + st["recovered"], [])
 
 
 C10_TARGETED = [b"CAST(1 AS ARRAY<STRUCT<x y>>)", b"CAST(1 AS ARRAY<STRUCT<a INT64, b c d>>)", b"CAST(1 AS ARRAY<ARRAY<x y>>) + 1", b"CAST(1 AS STRUCT<x y>>)",
